@@ -19,7 +19,7 @@ klass(FC, "CartesianProduct", fields={}, properties=["min_sizes", "max_sizes"],
           ])
 klass(FC, "Quotient", fields={"idx": Int, "number_of_children": Int, "_min_sizes": Seq(Int),
                               "_max_sizes": Seq(Opt(Int)), "_parent_shift": Int})
-klass(FD, "DisjointUnion", fields={"number_of_children": Int})
+klass(FD, "DisjointUnion", fields={"number_of_children": Int, "zeroes": Seq(Set(Str))})
 klass(FD, "Complement", fields={"idx": Int})
 
 
@@ -149,9 +149,9 @@ provider("samplers", args=[], arg_names=[], returns=CombObj)
 
 contract(FD, "DisjointUnion.random_sample_sub_objects", props=["C08"], lenient=True,
          params={"self": Obj("DisjointUnion"), "parent_count": Int, "subsamplers": Seq(Fun("samplers")),
-                 "subrecs": Seq(Fun("recs")), "n": Int},
+                 "subrecs": Seq(Fun("recs")), "n": Int, "parameters": Dict(Str, Int)},
          returns=Seq(Opt(CombObj)),
-         requires=["parent_count >= 1", "len(subsamplers) == len(subrecs)",
+         requires=["parent_count >= 1", "len(subsamplers) == len(subrecs)", "len(self.zeroes) == len(subrecs)",
                    "forall(lambda j: implies(0 <= j and j < len(subrecs), subrecs[j] == j and subsamplers[j] == j))"],
          pure_calls=["get_extra_parameters"],
          may_raise=["RuntimeError"],
@@ -164,7 +164,9 @@ contract(FD, "DisjointUnion.random_sample_sub_objects", props=["C08"], lenient=T
              # (sum of the weights of the children before it) < r <= (that sum + its own weight)
              "samplers": ["idx == _i0", 'last_arg("prov:recs", 0) == _i0', "random_choice <= total",
                           'random_choice > total - last_result("prov:recs")'],
-             "recs": ["idx == _i0", "random_choice > total"]},
+             # a child that forces a parent parameter to zero is skipped when the requested value is not zero
+             "recs": ["idx == _i0", "random_choice > total",
+                      "forall(lambda k=Str: implies(k in parameters and parameters[k] != 0, not (k in self.zeroes[idx])))"]},
          loops={0: dict(invariant=["random_choice > total", "total >= 0"], modifies=[],
                         ghost_end=[])},
          notes="for every outcome r of randint(1, parent_count)")
